@@ -97,6 +97,8 @@ pub struct R1csCase<G: AffineRepr> {
     pub parties: usize,
     /// add the point of order 2 to the verifier's i-th commitment (cofactor curve only; outside the model's module)
     pub vtorsion: Option<usize>,
+    /// run prover and verifier with B_blinding = 2 B (so that different openings can give the same commitment point)
+    pub bb_is_2b: bool,
     pub tag: String,
     pub model: bool,
 }
@@ -116,6 +118,7 @@ impl<G: AffineRepr> R1csCase<G> {
             forge: None,
             parties: 1,
             vtorsion: None,
+            bb_is_2b: false,
             vlabel: b"verif-case",
             vprog: None,
             vcommit: vec![],
@@ -250,7 +253,10 @@ pub fn run_case<G: AffineRepr>(c: &R1csCase<G>, curve: &str, modulus: &str) -> C
     type F<G> = <G as AffineRepr>::ScalarField;
     let cap_basis = c.cap_p.max(c.cap_v).max(1);
     let basis = make_basis::<G>(cap_basis, c.extra);
-    let pc = PedersenGens::<G>::default();
+    let mut pc = PedersenGens::<G>::default();
+    if c.bb_is_2b {
+        pc.B_blinding = (pc.B.into_group() + pc.B.into_group()).into_affine();
+    }
     let bp_p = BulletproofGens::<G>::new(c.cap_p, c.parties);
     let bp_v = BulletproofGens::<G>::new(c.cap_v, c.parties);
     if let Some(f) = &c.forge {
@@ -903,7 +909,7 @@ pub fn gen_cases<G: AffineRepr>(seed: u64, tier: &str, stream: &str, curve_idx: 
                 let n = (g.n1 + g.n2).next_power_of_two().max(1);
                 let sa: u64 = rng.gen();
                 let sb: u64 = rng.gen();
-                for (j, sd) in [sa, sa, sb, sa, sa].iter().enumerate() {
+                for (j, sd) in [sa, sa, sb, sa, sa, sa, sa].iter().enumerate() {
                     let mut prog = g.prog.clone();
                     if j == 3 {
                         for op in prog.iter_mut() {
@@ -925,8 +931,25 @@ pub fn gen_cases<G: AffineRepr>(seed: u64, tier: &str, stream: &str, curve_idx: 
                         }
                         if seen < 2 { continue; }
                     }
+                    if j == 5 || j == 6 {
+                        // B_blinding = 2B: variant 5 is the reference, variant 6 re-opens the SAME commitment points as
+                        // (v - 2, vb + 1) and (v + 2, vb - 1): same transcript, same external randomness, same blinding sum
+                        let mut seen = 0;
+                        for op in prog.iter_mut() {
+                            if let COp::Commit(v, vb) = op {
+                                let (v0, b0) = (*v, *vb);
+                                if j == 6 {
+                                    if seen == 0 { *op = COp::Commit(v0 - F::<G>::from(2u64), b0 + F::<G>::from(1u64)); }
+                                    else if seen == 1 { *op = COp::Commit(v0 + F::<G>::from(2u64), b0 - F::<G>::from(1u64)); }
+                                }
+                                seen += 1;
+                            }
+                        }
+                        if seen < 2 { continue; }
+                    }
                     let mut c = R1csCase::plain(format!("c_rngdet_{}_{}_{}", curve_idx, k, j), prog, n, n, *sd);
                     c.model = j == 0;
+                    c.bb_is_2b = j >= 5;
                     c.tag = format!("rngdet variant={} n1={} n2={} grp={}", j, g.n1, g.n2, k);
                     out.push(c);
                 }
